@@ -41,6 +41,16 @@ example :
     run (fun _ => []) sem g [] = .ok [("w", 2)] ∧ Spec.value sem g [] 1 "w" = .ok (some 1) := by
   decide
 
+-- concrete instance shared by the non-vacuity examples below: a two-node graph with fan-out (node 1
+-- reads `a` twice), an initializer `x` that the caller overrides, and a toy semantics (sum of the inputs)
+private def nv_g : Graph Nat :=
+  { nodes := [⟨["x", "w"], ["a"]⟩, ⟨["a", "a"], ["b"]⟩], decls := [], outputs := ["b", "a"], inits := [("w", 10), ("x", 5)] }
+private def nv_sem : Nat → List (Option Nat) → Res (List (Option Nat)) :=
+  fun _ l => .ok [some ((l.map (·.getD 0)).foldl (· + ·) 0)]
+-- the same nodes with a declared 2×3 input `x` that is not an initializer
+private def nv_gd : Graph Nat :=
+  { nv_g with decls := [⟨"x", some [⟨false, 2⟩, ⟨false, 3⟩]⟩], inits := [("w", 10)] }
+
 /-- **Run refines the dataflow value.** On a well-formed graph whose caller tensors and initializers
 bind every name consistently (`hnames : FirstBindingWins g ins` — the one hypothesis added to the
 original statement; it holds when names are unique, as in a Go map), whenever Run succeeds every
@@ -53,6 +63,11 @@ theorem run_refines_value_partial (shapeOf : V → List Nat) (sem : Nat → List
     ∀ o v, (o, v) ∈ outs → Spec.value sem g ins (g.nodes.length + 1) o = .ok (some v) :=
   run_refines shapeOf sem g ins hwf hnames outs h
 
+-- non-vacuity: the theorem applied to the two-node graph; every hypothesis is discharged
+example : ∀ o v, (o, v) ∈ [("b", 22), ("a", 11)] → Spec.value nv_sem nv_g [("x", 1)] (nv_g.nodes.length + 1) o = .ok (some v) :=
+  run_refines_value_partial (fun _ => []) nv_sem nv_g [("x", 1)] ⟨by decide, by decide, by decide⟩
+    (FirstBindingWins.of_unique ⟨by decide, by decide⟩) [("b", 22), ("a", 11)] (by decide)
+
 /-- the same with the plainer hypothesis: no name twice among the caller's tensors, none twice among
 the initializers (a name may still be both a caller tensor and an initializer) -/
 theorem run_refines_value_of_unique (shapeOf : V → List Nat) (sem : Nat → List (Option V) → Res (List (Option V)))
@@ -61,11 +76,20 @@ theorem run_refines_value_of_unique (shapeOf : V → List Nat) (sem : Nat → Li
     ∀ o v, (o, v) ∈ outs → Spec.value sem g ins (g.nodes.length + 1) o = .ok (some v) :=
   run_refines shapeOf sem g ins hwf (FirstBindingWins.of_unique huniq) outs h
 
+-- non-vacuity
+example : ∀ o v, (o, v) ∈ [("b", 22), ("a", 11)] → Spec.value nv_sem nv_g [("x", 1)] (nv_g.nodes.length + 1) o = .ok (some v) :=
+  run_refines_value_of_unique (fun _ => []) nv_sem nv_g [("x", 1)] ⟨by decide, by decide, by decide⟩
+    ⟨by decide, by decide⟩ [("b", 22), ("a", 11)] (by decide)
+
 /-- more fuel never changes a value: the fuel `g.nodes.length + 1` above is a lower bound -/
 theorem value_fuel_mono (sem : Nat → List (Option V) → Res (List (Option V))) (g : Graph V)
     (ins : List (String × V)) (f f' : Nat) (hle : f ≤ f') (name : String) (w : Option V)
     (h : Spec.value sem g ins f name = .ok w) : Spec.value sem g ins f' name = .ok w :=
   value_mono sem g ins f name w h f' hle
+
+-- non-vacuity: fuel 3 suffices for `b` in the two-node graph, so does fuel 7
+example : Spec.value nv_sem nv_g [("x", 1)] 7 "b" = .ok (some 22) :=
+  value_fuel_mono nv_sem nv_g [("x", 1)] 3 7 (by decide) "b" (some 22) (by decide)
 
 /-- **Every declared output is present** (and non-nil: the result carries values, not options), in
 the declared order — or Run reports an error. -/
@@ -75,11 +99,19 @@ theorem run_outputs_total (shapeOf : V → List Nat) (sem : Nat → List (Option
   obtain ⟨env, _, hc⟩ := run_ok h
   exact collect_names env g.outputs outs hc
 
+-- non-vacuity: a successful Run of the two-node graph
+example : ([("b", 22), ("a", 11)] : List (String × Nat)).map (·.1) = nv_g.outputs :=
+  run_outputs_total (fun _ => []) nv_sem nv_g [("x", 1)] _ (by decide)
+
 /-- a declared output that nothing provides makes Run fail -/
 theorem run_missing_output (shapeOf : V → List Nat) (sem : Nat → List (Option V) → Res (List (Option V)))
     (g : Graph V) (ins : List (String × V)) (o : String) (ho : o ∈ g.outputs)
     (hno : o ∉ available g ins g.nodes.length) : ∃ e, run shapeOf sem g ins = .error e :=
   run_missing shapeOf sem g ins o ho hno
+
+-- non-vacuity: the two-node graph with a declared output `c` that no node, input or initializer provides
+example : ∃ e, run (fun _ => []) nv_sem { nv_g with outputs := ["b", "c"] } [("x", 1)] = .error e :=
+  run_missing_output (fun _ => []) nv_sem { nv_g with outputs := ["b", "c"] } [("x", 1)] "c" (by decide) (by decide)
 
 /-- **Validation comes first** (C13): when the supplied tensors do not satisfy the signature Run fails
 with that error whatever the operators are — no operator is applied, so no tensor is touched. -/
@@ -88,6 +120,12 @@ theorem run_validates_first (shapeOf : V → List Nat) (sem sem' : Nat → List 
     (hv : validateShapes g.decls (g.inits.map (·.1)) (ins.map fun (n, v) => (n, shapeOf v)) = .error e) :
     run shapeOf sem g ins = .error e ∧ run shapeOf sem' g ins = .error e :=
   ⟨run_error_of_validate shapeOf sem g ins e hv, run_error_of_validate shapeOf sem' g ins e hv⟩
+
+-- non-vacuity: `x` is declared 2×3 and a rank-1 tensor is supplied
+example :
+    run (fun _ => [2]) nv_sem nv_gd [("x", 1)] = .error .model ∧
+    run (fun _ => [2]) (fun _ _ => .error .panic) nv_gd [("x", 1)] = .error .model :=
+  run_validates_first (fun _ => [2]) nv_sem (fun _ _ => .error .panic) nv_gd [("x", 1)] .model (by decide)
 
 /-- **A failing node fails the Run** with that node's error (C18: an operator type outside the opset
 yields the unsupported-operator error — the node is neither skipped nor substituted): if the nodes
@@ -100,12 +138,26 @@ theorem run_node_error (sem : Nat → List (Option V) → Res (List (Option V)))
     runNodes sem start (pre ++ n :: rest) env = .error e :=
   runNodes_node_error sem n rest insn e pre start env env1 hpre hg hfail
 
+-- non-vacuity: three nodes, the middle one (index 1) is of an unsupported type
+example :
+    runNodes (fun i l => if i = 1 then .error .unsupportedOp else nv_sem i l) 0
+      ([⟨["x", "w"], ["a"]⟩] ++ (⟨["a", "a"], ["b"]⟩ : GNode) :: [⟨["b"], ["c"]⟩])
+      [("x", some 1), ("w", some 10)] = .error .unsupportedOp :=
+  run_node_error (fun i l => if i = 1 then .error .unsupportedOp else nv_sem i l)
+    [⟨["x", "w"], ["a"]⟩] [⟨["b"], ["c"]⟩] ⟨["a", "a"], ["b"]⟩ 0
+    [("x", some 1), ("w", some 10)] [("a", some 11), ("x", some 1), ("w", some 10)] [some 11, some 11] .unsupportedOp
+    (by decide) (by decide) (by decide)
+
 /-- results are bound to the output names by position: the environment after a node maps its k-th
 output name to the k-th result -/
 theorem bind_positional (env : Env V) (names : List String) (outs : List (Option V)) (env' : Env V)
     (hn : names.Nodup) (h : bindOutputs env names outs = .ok env') (k : Nat) (hk : k < names.length) :
     env'.find (names[k]) = some (outs.getD k none) :=
   bind_find_mem env names outs env' hn h k hk
+
+-- non-vacuity: two output names, the second result absent
+example : Env.find ([("q", none), ("p", some 7), ("x", some 1)] : Env Nat) (["p", "q"][1]) = some ([some 7, none].getD 1 none) :=
+  bind_positional [("x", some 1)] ["p", "q"] [some 7, none] _ (by decide) (by decide) 1 (by decide)
 
 /-- an empty input name is 'optional input absent', and gathering does not depend on later bindings -/
 theorem gather_empty (env : Env V) (rest : List String) :
